@@ -3,7 +3,7 @@
 // One case = one parameter tuple drawn from the *mutually supported* matrix (capability table built at start-up
 // by asking both libraries, see build_caps()):
 //   role assignment x version x suite x server identity x client-auth identity x key-exchange group x signature scheme
-//   x resumption kind x EMS setting x record/receive chunking x payload schedule x close initiator.
+//   x resumption kind x TLS 1.3 PSK key-exchange mode (psk_dhe_ke / psk_ke) x EMS setting x record/receive chunking x payload schedule x close initiator.
 // The peer derives every key, MAC and transcript hash with its own code, so a symmetric mistake in MatrixSSL
 // (PRF label, transcript range, AAD layout, nonce, Finished, signature input) cannot cancel out.
 #include "mxh.h"
@@ -125,6 +125,7 @@ struct Caps {
     bool sig[32] = { false };               // ALL_SIGS index -> both stacks have it
     bool ident_srv[16] = { false }, ident_cli[16] = { false };
     sslKeys_t *mx_srv[16] = { 0 }, *mx_cli[16] = { 0 }, *mx_cli_noid = nullptr, *mx_srv_psk = nullptr, *mx_cli_psk = nullptr;
+    int no_common_group = -1;               // ALL_GROUPS index of a TLS 1.3 group that OpenSSL has and MatrixSSL does not (used to force psk_ke), -1 = none
     bool rfc5746 = false;                   // MatrixSSL server answers the renegotiation_info SCSV (needs USE_REHANDSHAKING); else OpenSSL clients need SSL_OP_LEGACY_SERVER_CONNECT
     std::string text;                       // human-readable table incl. exclusions and reasons
 };
@@ -212,7 +213,12 @@ static void build_caps() {
         if (mx13 && os) G.groups13.push_back((int) g);
         if (mx12 && os) G.groups12.push_back((int) g);
         T += fmt("group %-10s matrixssl(1.3 key_share)=%d matrixssl(<=1.2 ECDHE)=%d openssl=%d\n", d.name, (int) mx13, (int) mx12, (int) os);
+        if (os && !mx13 && d.id != 0x0015 /* P-224 is not a TLS 1.3 group */ && G.no_common_group < 0) G.no_common_group = (int) g;
     }
+    T += "tls13 psk_ke, MatrixSSL client x OpenSSL server: IN (the client always offers psk_dhe_ke and psk_ke; an OpenSSL 3.0 server takes psk_ke when SSL_OP_ALLOW_NO_DHE_KEX is set and\n"
+         "      no (EC)DHE group is shared, so the resumed connection's server is restricted to " + std::string(G.no_common_group >= 0 ? ALL_GROUPS[G.no_common_group].name : "a group the client does not list") + ")\n";
+    T += "tls13 psk_ke, OpenSSL client x MatrixSSL server: offered (SSL_OP_ALLOW_NO_DHE_KEX) but OUTSIDE the negotiable matrix: an OpenSSL 3.0 client always lists psk_dhe_ke too and\n"
+         "      selectKeyExchangeMode() (tls13Encode.c) takes psk_dhe_ke whenever it is listed (HelloRetryRequest if the share is unusable); such cases are counted, not asserted\n";
     // signature schemes
     for (size_t i = 0; i < N_ALL_SIGS; i++) {
         const SigD &d = ALL_SIGS[i];
@@ -237,6 +243,7 @@ struct Case {
     int hrr_first;          // ALL_GROUPS index of the client's first (rejected) key_share group when an HRR is forced, else -1
     int ssig, csig;         // ALL_SIGS index the signer is steered to (-1 = library defaults)
     int resume;
+    bool psk_ke = false;    // TLS 1.3 resumption: aim at the PSK-only key-exchange mode (MatrixSSL client: forced at the OpenSSL server; MatrixSSL server: OpenSSL client offers both modes)
     int mx_ems;             // 0 offer, 1 require, -1 off
     bool os_ems;
     bool os_tickets;
@@ -255,11 +262,11 @@ struct Case {
         const SuiteD &s = ALL_SUITES[suite];
         std::string p;
         for (int k = 0; k < 2; k++) { p += k ? " | " : ""; for (auto &m : sched[k]) p += fmt("%s%zu ", m.first ? "O>M:" : "M>O:", m.second); }
-        return fmt("%s ver=%s suite=%s srv-id=%s cauth=%s group=%s%s ssig=%s csig=%s resume=%s ems(mx=%d,ossl=%d) ossl(tickets=%d,etm=%d,maxfrag=%d,sends-root=%d) chunk=%zu piece=%zu close-first=%s keyupd=%d dtls(mtu=%d,ossl-cookie=%d) payloads=[%s] eseed=%llu",
+        return fmt("%s ver=%s suite=%s srv-id=%s cauth=%s group=%s%s ssig=%s csig=%s resume=%s%s ems(mx=%d,ossl=%d) ossl(tickets=%d,etm=%d,maxfrag=%d,sends-root=%d) chunk=%zu piece=%zu close-first=%s keyupd=%d dtls(mtu=%d,ossl-cookie=%d) payloads=[%s] eseed=%llu",
                    mx_client ? "MatrixSSL-client/OpenSSL-server" : "OpenSSL-client/MatrixSSL-server", ver_name(ver), s.std_name,
                    sident >= 0 ? ALL_IDENTS[sident].name : "psk", cauth ? ALL_IDENTS[cident].name : "off", group >= 0 ? ALL_GROUPS[group].name : "-",
                    hrr_first >= 0 ? fmt("(HRR from %s)", ALL_GROUPS[hrr_first].name).c_str() : "",
-                   ssig >= 0 ? ALL_SIGS[ssig].name : "default", csig >= 0 ? ALL_SIGS[csig].name : "default", resume_name[resume], mx_ems, (int) os_ems,
+                   ssig >= 0 ? ALL_SIGS[ssig].name : "default", csig >= 0 ? ALL_SIGS[csig].name : "default", resume_name[resume], psk_ke ? "(psk_ke)" : "", mx_ems, (int) os_ems,
                    (int) os_tickets, (int) os_etm, os_max_frag, (int) os_send_root, chunk, piece, mx_closes_first ? "MatrixSSL" : "OpenSSL", key_update, mtu, (int) os_cookie, p.c_str(), (unsigned long long) eseed);
     }
 };
@@ -399,6 +406,8 @@ static Case draw_case(Tape &t) {
             for (int c = 0; c < 2; c++) for (auto &msg : k.sched[c]) if (msg.second > maxp) msg.second = 1 + msg.second % maxp;
         }
     }
+    // ---- TLS 1.3 PSK key-exchange mode of the resumed connection (drawn after everything else for the same reason; zero tape = psk_dhe_ke as before)
+    if (k.ver == TLS13 && (k.resume == R_PSK13 || k.resume == R_PSK13_HRR)) k.psk_ke = t.coin();
     return k;
 }
 
@@ -555,6 +564,13 @@ static void prop(Tape &t, Ctx &c) {
     oc.sni = "localhost";
     if (dtls) { oc.dtls_mtu = k.mtu; oc.dtls_cookie = k.os_cookie; matrixDtlsSetPmtu(k.mtu); }
     oc.legacy_server_connect = !G.rfc5746;
+    oc.allow_no_dhe_kex = k.psk_ke;   // server: may answer with psk_ke; client: lists psk_ke next to psk_dhe_ke
+    // psk_ke against an OpenSSL 3.0 server: only reachable when the resumed connection has no (EC)DHE group in common (no SSL_OP_PREFER_NO_DHE_KEX before 3.3)
+    std::string psk_ke_groups;
+    if (k.psk_ke && k.mx_client) {
+        if (G.no_common_group >= 0) psk_ke_groups = ALL_GROUPS[G.no_common_group].ossl;
+        else for (int og : G.groups13) if (og != k.group && og != k.hrr_first) { psk_ke_groups = ALL_GROUPS[og].ossl; break; }   // the MatrixSSL client lists exactly {hrr_first, group}
+    }
     oc.auto_chain = k.os_send_root; oc.tickets = k.os_tickets; oc.ems = k.os_ems; oc.etm = k.os_etm; oc.max_send_fragment = k.os_max_frag;
     std::string oerr;
     std::unique_ptr<OsslCtx> octx = OsslCtx::create(oc, &oerr);
@@ -598,6 +614,8 @@ static void prop(Tape &t, Ctx &c) {
         int orc = L.M.open(mc);
         VF_CHECK(orc >= 0 && L.M.ssl, "harness-matrixssl-config-refused", "matrixSslNew%sSession returned %d for a configuration that the capability table admits; %s", k.mx_client ? "Client" : "Server", orc, desc.c_str());
         L.O.reset(new OsslConn(*octx, k.mx_client ? nullptr : osess));
+        bool force_psk_ke = conn == 1 && k.psk_ke && k.mx_client && !psk_ke_groups.empty();
+        if (force_psk_ke) VF_CHECK(L.O->set_groups(psk_ke_groups), "harness-openssl-config-refused", "SSL_set1_groups_list(%s) refused; %s", psk_ke_groups.c_str(), desc.c_str());
         if (!k.mx_client) L.O->handshake();   // emit the ClientHello
 
         // ---- handshake
@@ -605,10 +623,14 @@ static void prop(Tape &t, Ctx &c) {
         bool mdone = L.M.hs_complete() && !L.M.failed, odone = L.O->handshake_done() && !L.O->failed();
         if (!(mdone && odone)) {
             int as = L.O->fatal_alert_sent(), ar = L.O->fatal_alert_received();
+            // The MatrixSSL client did not list psk_ke (this code base always does): then the forced configuration has no mode in common and
+            // OpenSSL's handshake_failure is the correct outcome of a tuple outside the mutually supported matrix.
+            if (force_psk_ke && as == 40 && !(L.O->client_hello_psk_modes() & 1)) { c.count("tls13-psk-ke-not-offered-by-matrixssl-client(outside-matrix)"); return; }
             // signature = symptom + coarse context (protocol generation, key-schedule hash, full/resumed, HRR), so that distinct root causes get distinct signatures
             bool sha384 = strstr(sd.std_name, "SHA384") != nullptr;
             std::string ctx = fmt("%s:%s:%s%s", k.ver == TLS13 ? "tls13" : k.ver == TLS12 ? "tls12" : k.ver == TLS11 ? "tls11" : "dtls", sha384 ? "sha384" : "sha256",
                                   conn == 1 ? "resuming" : "full", L.O->saw_hello_retry() ? ":hrr" : "");
+            if (force_psk_ke) ctx += ":psk-ke";
             std::string sig = as >= 0 ? fmt("handshake-failed:openssl-rejects-matrixssl-alert-%d:%s", as, ctx.c_str())
                             : ar >= 0 ? fmt("handshake-failed:matrixssl-rejects-openssl-alert-%d:%s", ar, ctx.c_str())
                             : L.M.failed ? fmt("handshake-failed:matrixssl-error-%d:%s", L.M.last_rc, ctx.c_str()) : "handshake-failed:stalled:" + ctx;
@@ -643,8 +665,17 @@ static void prop(Tape &t, Ctx &c) {
         }
         if (k.ver != TLS13 && G.rfc5746) VF_CHECK(L.O->secure_renegotiation(), "renegotiation-info-missing", "MatrixSSL implements RFC 5746 but OpenSSL saw no renegotiation_info; %s", desc.c_str());
         bool hrr = L.O->saw_hello_retry();
-        if (k.ver == TLS13 && k.hrr_first >= 0) VF_CHECK(hrr, "hello-retry-expected", "an HRR was expected (first key_share on %s, server only has %s) but none was seen (trace=%s); %s", ALL_GROUPS[k.hrr_first].name, g->name, L.O->hs_trace().c_str(), desc.c_str());
+        // (a server that is being forced to psk_ke shares no group with the client, so it cannot and need not ask for another key_share)
+        if (k.ver == TLS13 && k.hrr_first >= 0 && !force_psk_ke) VF_CHECK(hrr, "hello-retry-expected", "an HRR was expected (first key_share on %s, server only has %s) but none was seen (trace=%s); %s", ALL_GROUPS[k.hrr_first].name, g->name, L.O->hs_trace().c_str(), desc.c_str());
         std::string grp = L.O->group_name();
+        // TLS 1.3 key-exchange mode as seen on the wire: a resumed handshake whose ServerHello has pre_shared_key but no key_share is psk_ke (RFC 8446 4.2.9)
+        int sh_ks = k.ver == TLS13 ? L.O->server_hello_key_share() : -1;
+        bool psk_ke_neg = k.ver == TLS13 && sh_ks == 0, psk_dhe_neg = k.ver == TLS13 && ores && sh_ks == 1;
+        if (k.ver == TLS13) {
+            VF_CHECK(sh_ks >= 0, "harness-serverhello-unparsed", "no parsable ServerHello in the OpenSSL message trace (%s); %s", L.O->hs_trace().c_str(), desc.c_str());
+            VF_CHECK(L.O->server_hello_pre_shared_key() == ores, "resumed-flag-disagrees", "conn %d: ServerHello pre_shared_key=%d but SSL_session_reused=%d; %s", conn, (int) L.O->server_hello_pre_shared_key(), (int) ores, desc.c_str());
+            if (psk_ke_neg) { VF_CHECK(ores && mres, "psk-ke-without-psk", "conn %d: ServerHello without key_share but the session is not resumed (openssl=%d matrixssl=%d); %s", conn, (int) ores, (int) mres, desc.c_str()); grp.clear(); }   // (OpenSSL reports the original session's group)
+        }
         std::string psig = L.O->peer_sig_name(), osig = L.O->own_sig_name();
 
         // ---- application data, both directions
@@ -702,6 +733,9 @@ static void prop(Tape &t, Ctx &c) {
         c.count(std::string("conn:") + (k.mx_client ? "mx-client:" : "mx-server:") + (ores ? resume_name[k.resume] : "full"));
         if (!grp.empty()) c.count("group:" + grp);
         if (hrr) c.count("hello-retry-request");
+        if (psk_ke_neg) { c.count("tls13-psk-ke-negotiated"); c.count(std::string("tls13-psk-ke-negotiated:") + (k.mx_client ? "mx-client:" : "mx-server:") + sd.std_name); }
+        if (psk_dhe_neg) { c.count("tls13-psk-dhe-ke-negotiated"); c.count(std::string("tls13-psk-dhe-ke-negotiated:") + (k.mx_client ? "mx-client:" : "mx-server:") + sd.std_name); }
+        if (conn == 1 && k.psk_ke && !psk_ke_neg) c.count(k.mx_client ? "tls13-psk-ke-wanted-but-not-negotiated:mx-client" : "tls13-psk-ke-offered-by-openssl-client:matrixssl-server-chose-psk-dhe-ke(outside-matrix)");
         if (!psig.empty()) c.count(std::string(k.mx_client ? "signed-by-matrixssl(client CertificateVerify):" : "signed-by-matrixssl(server):") + psig);
         if (!osig.empty()) c.count(std::string(k.mx_client ? "signed-by-openssl(server):" : "signed-by-openssl(client CertificateVerify):") + osig);
         if (full && sid_) c.count(std::string("srv-ident:") + sid_->name);
@@ -709,6 +743,7 @@ static void prop(Tape &t, Ctx &c) {
         if (k.ver != TLS13) c.count(fmt("ems:mx=%d,ossl=%d", k.mx_ems, (int) k.os_ems));
         if (nontriv) {
             std::string shape = fmt("%d|%d|%d|%d|%d|%d|%d|%d|%d|%d|%d|%d|%d|%d", (int) k.mx_client, k.ver, k.suite, k.sident, k.cauth ? k.cident : -1, k.group, k.hrr_first, k.ssig, k.csig, k.resume, conn, k.mx_ems, (int) k.os_ems, (int) k.os_tickets);
+            shape += fmt("|%s", psk_ke_neg ? "psk_ke" : psk_dhe_neg ? "psk_dhe_ke" : "-");
             for (auto &m : k.sched[conn]) shape += fmt("|%d:%zu", m.first, m.second);
             shape += fmt("|%zu|%zu", k.chunk, k.piece);
             c.nontrivial(shape);
